@@ -365,7 +365,13 @@ def run_srs_case(sh, srs, rec, c):
 
     # -- main call, with the roll functions observed --------------------------------
     del rec.calls[:]
+    sig_keep = np.array(sig_arg, copy=True)
+    freq_keep = np.array(freq, copy=True)
     out = call("srs", getresp=True)
+    sh.count("mon:srs-inputs-unmutated")
+    if not (np.array_equal(np.asarray(sig_arg), sig_keep, equal_nan=True)
+            and np.array_equal(np.asarray(freq), freq_keep)):
+        sh.violation("srs-inputs-unmutated", case, {}, tags)
     calls = list(rec.calls)
     del rec.calls[:]
     if out is None:
